@@ -353,6 +353,38 @@ def case_taper_integer_abscissae(ctx, n):
         ctx.oblige("taper_on_integer_abscissae_equals_taper_on_floats", core.eq(A[i], B[i]), detail={"i": i, "int": A[i], "float": B[i]})
 
 
+class _UIntAbscissae(_IntAbscissae):
+    """indices held as unsigned 16-bit integers: subtracting an integer stays unsigned and wraps (NumPy's rule)"""
+
+    @property
+    def dtype(self):
+        return np.dtype(np.uint16)
+
+    def __sub__(self, other):
+        if isinstance(other, (int, np.integer)) and not isinstance(other, bool):
+            vals = [(int(e) - int(other)) % 65536 for e in self.view(np.ndarray).ravel().tolist()]
+            return arrays.mk(vals, shape=self.shape, tag=np.dtype(np.uint16)).view(_UIntAbscissae)
+        return arrays.SymArray.__sub__(self, other)
+
+
+def case_taper_unsigned_abscissae(ctx, n, b0, b1):
+    """fcn_cosine with integer bounds evaluated on UNSIGNED integer indices (channel / sample numbers are often stored that way):
+    same soft threshold as on the same numbers held as floats - 0 below the first bound in particular"""
+    import ibldsp.utils as u
+    xi = arrays.mk(list(range(n)), tag=np.dtype(np.uint16)).view(_UIntAbscissae)
+    xf = arrays.mk([float(i) for i in range(n)], tag=np.dtype(float))
+    yi = ctx.call("fcn_cosine_uint", lambda: u.fcn_cosine([b0, b1])(xi))
+    yf = ctx.call("fcn_cosine_float", lambda: u.fcn_cosine([b0, b1])(xf))
+    if not ctx.oblige("taper_keeps_the_length", np.shape(yi) == (n,) and np.shape(yf) == (n,)):
+        return
+    A = np.asarray(arrays._plain(yi), dtype=object)
+    B = np.asarray(arrays._plain(yf), dtype=object)
+    for i in range(n):
+        ctx.oblige("taper_on_unsigned_abscissae_equals_taper_on_floats", core.eq(A[i], B[i]), detail={"i": i, "uint": A[i], "float": B[i]})
+        if i <= b0:
+            ctx.oblige("taper_is_zero_up_to_the_first_bound", core.eq(A[i], 0), detail={"i": i, "got": A[i]})
+
+
 def case_taper_pointwise(ctx, two_d):
     """the cosine soft threshold is a point-wise function of the value: abscissae in any order (and on a 2-D grid, as the
     f-k filter passes them) get 0 below the first bound, 1 above the second and the same value as when evaluated alone"""
@@ -500,6 +532,7 @@ def cases(tier):
     cs.append(Case("cosine_taper_pointwise_2d", "case_taper_pointwise", {"two_d": True}, timeout_s=900))
     cs.append(Case("bandpass_overlap_ns13", "case_bandpass", {"ns": 13, "corners": [1, 4, 2, 6], "two_d": False}, timeout_s=1500))       # a length with a large prime factor
     cs.append(Case("cosine_taper_integer_abscissae", "case_taper_integer_abscissae", {"n": 6}))
+    cs.append(Case("cosine_taper_unsigned_abscissae_2_5", "case_taper_unsigned_abscissae", {"n": 8, "b0": 2, "b1": 5}))
     for (p, q) in ((1, 2), (2, 5), (0, 3)) if tier == "thorough" else ((1, 2),):
         cs.append(Case(f"filters_{p}_{q}", "case_filters", {"b0n": p, "b1n": q}))
     return cs
@@ -601,6 +634,17 @@ except Exception as e:
 alone = np.array([u.fcn_cosine(b)(np.array([v]))[0] for v in x.ravel()]).reshape(x.shape)
 print(x, y, alone)
 if np.shape(y) != x.shape or not np.allclose(y, alone, atol=1e-12): reproduced(f'fcn_cosine({{b}}) on {{x.tolist()}} gives {{np.asarray(y).tolist()}}, evaluated value by value {{alone.tolist()}}')
+not_reproduced()
+"""
+    if case.startswith("cosine_taper_unsigned"):
+        return f"""
+import ibldsp.utils as u
+n, b = {params['n']}, [{params['b0']}, {params['b1']}]
+yf = u.fcn_cosine(b)(np.arange(n, dtype=float))
+for dt in (np.uint16, np.uint32, np.uint64, np.uint8):
+    yi = u.fcn_cosine(b)(np.arange(n, dtype=dt))
+    print(dt.__name__, yi, yf)
+    if np.shape(yi) != np.shape(yf) or not np.allclose(np.asarray(yi, dtype=float), yf, atol=1e-12): reproduced(f'fcn_cosine({{b}}) on {{dt.__name__}} indices gives {{np.asarray(yi).tolist()}}, on the same numbers as floats {{yf.tolist()}}')
 not_reproduced()
 """
     if case.startswith("cosine_taper_integer"):
